@@ -19,8 +19,11 @@ Definition p_op : parser op :=
   | 0 => pret (Established p) | 1 => pret (ConnClosed p) | 2 => pret (SubIn p) | 3 => pret (SubOut p)
   | 4 => pret (OpenFail p) | 5 => pret (DialFail p) | 6 => pret (HsIn p b) | 7 => pret (HsOut p b)
   | 8 => pret (Validate p b) | 9 => pret (Timer p) | 10 => pret (CmdOpen p) | 11 => pret (CmdClose p)
-  | 12 => pret (CmdForce p) | 13 => pret (TaskDie p b) | 14 => pret (Release p b) | 15 => pret (KillChan p)
-  | 16 => pret (Gate p) | 17 => pret (Notify p) | 18 => pret (NotifyDie p b)
+  (* 13 / 18: bit 0 of the argument = the substream closes are held back; the higher bits name what ends the
+     stream (inbound EOF, inbound error frame, outbound write error): one and the same transition. 4: the
+     argument names the SubstreamError variant; 15: 0 = channel closed, 1 = channel full *)
+  | 12 => pret (CmdForce p) | 13 => pret (TaskDie p (N.odd a)) | 14 => pret (Release p b) | 15 => pret (KillChan p)
+  | 16 => pret (Gate p) | 17 => pret (Notify p) | 18 => pret (NotifyDie p (N.odd a))
   | 20 => pret (GrabSink p) | 21 => pret (SendSync p a) | 22 => pret (SendAsync p a)
   | 23 => pret (SinkSync p a) | 24 => pret (SinkAsync p a)
   | _ => pfail
@@ -30,11 +33,26 @@ Definition p_op : parser op :=
    sleeps > 5 s and the real futures_timer timers fire, oldest first; the model handles one `Timer p`
    per armed timer. A case with a SleepAll contains no hook-fired Timer events (they are dropped here
    and skipped by the harness) because the real timer of a hook-fired entry would fire again. *)
-Inductive gop := GOp (o : op) | GSleepAll.
+(* kinds 26 / 27: open_substream_batch / close_substream_batch: ONE NotificationCommand for several peers, which
+   the protocol works through in the iteration order of a HashSet. The argument lists the peers in the order
+   the implementation took them (base-4 digits, least significant first, digit = peer + 1, 0 ends the list;
+   the harness writes the order it observed into the case). The handle filters the peers against its gate
+   when the call is made and each on_open_substream / on_close_substream only touches its own peer
+   (C11_isolation), so the command is the sequence of the single-peer commands; events and calls of the one
+   step are printed sorted by peer. *)
+Inductive gop := GOp (o : op) | GSleepAll | GBatch (open : bool) (l : list peer).
+
+Fixpoint digits4 (fuel : nat) (a : N) : list peer :=
+  match fuel with
+  | O => []
+  | S f => if a mod 4 =? 0 then [] else (a mod 4 - 1) :: digits4 f (a / 4)
+  end.
 
 Definition p_gop : parser gop :=
   fun l => match l with
            | 19 :: _ :: _ :: rest => Some (GSleepAll, rest)
+           | 26 :: _ :: a :: rest => Some (GBatch true (digits4 3 a), rest)
+           | 27 :: _ :: a :: rest => Some (GBatch false (digits4 3 a), rest)
            | _ => match p_op l with Some (o, rest) => Some (GOp o, rest) | None => None end
            end.
 
@@ -117,8 +135,36 @@ Fixpoint fire_all (c : cfg) (s : st) (l : list peer) : res :=
       end
   end.
 
+(* the single-peer commands of a batch, one after the other *)
+Fixpoint batch_all (c : cfg) (s : st) (open : bool) (l : list peer) : res :=
+  match l with
+  | [] => ok s
+  | p :: t =>
+      match step c s (if open then CmdOpen p else CmdClose p) with
+      | Some (s1, e1, c1) =>
+          match batch_all c s1 open t with
+          | Some (s2, e2, c2) => Some (s2, e1 ++ e2, c1 ++ c2)
+          | None => None
+          end
+      | None => None
+      end
+  end.
+
+Definition ev_peer0 (e : uev) : peer :=
+  match e with UValidate p | UOpened p _ | UClosed p | UFail p _ | UNotif p | UClosedT p _ => p end.
+Definition call_peer0 (c : call) : peer :=
+  match c with CDial p | COpen p _ | CForce p | CRet p _ | CWire p _ _ => p end.
+
 Definition gstep (c : cfg) (s : st) (g : gop) : res :=
-  match g with GOp o => step c s o | GSleepAll => fire_all c s (timers s) end.
+  match g with
+  | GOp o => step c s o
+  | GSleepAll => fire_all c s (timers s)
+  | GBatch open l =>
+      match batch_all c s open l with
+      | Some (s1, ev, cl) => Some (s1, sort_by ev_peer0 ev, sort_by call_peer0 cl)
+      | None => None
+      end
+  end.
 
 Fixpoint grun (c : cfg) (s : st) (l : list gop) : list (st * list uev * list call) * bool :=
   match l with
@@ -472,18 +518,19 @@ Definition check_step (c : cfg) (m : omem) (o : op) (x : sobs) : omem * N :=
    N.lor (flag (iso && acc && cl && ans && send && nt && (leave || rej)) F_GEN)
          (N.lor (flag (leave || negb rej) F_REJ) (N.lor fg owed))).
 
-(* a SleepAll step is a batch of timer events for several peers: only the event grammar and the
-   bookkeeping of the oracle are applied to it *)
+(* a SleepAll step is a batch of timer events for several peers, a batch command one of user commands for
+   several peers: only the event grammar and the bookkeeping of the oracle are applied to them *)
 Definition check_batch (m : omem) (x : sobs) : omem * N :=
   let '(opened', fg) := grammar (m_opened m) (o_ev x) in
   let '(cnt', sink') := sinks (m_cnt m) (m_sink m) (o_ev x) in
-  (mkOmem (o_peers x) opened' (m_req m) cnt' sink' (m_usink m),
+  let req := m_req m ++ flat_map (fun cl => match cl with COpen q y => [(y, q)] | _ => [] end) (o_calls x) in
+  (mkOmem (o_peers x) opened' req cnt' sink' (m_usink m),
    N.lor fg (flag (ntags_ok (m_cnt m) (m_sink m) (o_evt x)) F_GEN)).
 
 Fixpoint check_steps (c : cfg) (m : omem) (ops : list gop) (tr : list sobs) : N :=
   match ops, tr with
   | g :: ops', x :: tr' =>
-      let '(m', f) := match g with GOp o => check_step c m o x | GSleepAll => check_batch m x end in
+      let '(m', f) := match g with GOp o => check_step c m o x | GSleepAll | GBatch _ _ => check_batch m x end in
       N.lor f (check_steps c m' ops' tr')
   | _, _ => 0
   end.
